@@ -166,7 +166,9 @@ inline int& result_fd() { static int fd = -1; return fd; }
 // End the case right here (used by engines that cannot unwind: a run stopped at quiescence, at a
 // step bound or on the first violation while OS threads are parked).  Never returns.
 inline bool& server_mode() { static bool b = false; return b; }
+inline std::function<void()>& at_finish() { static std::function<void()> f; return f; }   // harness clean-up (scratch files) before the process ends
 [[noreturn]] inline void finish_now(const Outcome& o) {
+    if (at_finish()) { auto f = at_finish(); at_finish() = nullptr; f(); }
     if (result_fd() >= 0) {
         std::string s = ser_outcome(o);
         if (server_mode()) { uint32_t n = (uint32_t)s.size(); s = std::string((const char*)&n, 4) + s; }
@@ -442,11 +444,14 @@ inline int pbt_main(int argc, char** argv, Harness h) {
     auto t0 = std::chrono::steady_clock::now();
     auto elapsed = [&] { return std::chrono::duration<double>(std::chrono::steady_clock::now() - t0).count(); };
     rc::Gen<Case> g = h.gen(opt);
-    bool budget_hit = false;
+    bool budget_hit = false, shrink_cut = false;
+    double t_fail = 0, shrink_budget = getenv("VERIF_SHRINK_S") ? atof(getenv("VERIF_SHRINK_S")) : 90;
 
     auto property = [&]() {
         Case c = *g;
         if (!failing && (st.evaluations >= cases || elapsed() > budget)) { budget_hit = true; return; }
+        // shrinking is bounded too: once the budget is spent every further candidate counts as passing, which ends it
+        if (failing && elapsed() - t_fail > shrink_budget) { shrink_cut = true; return; }
         note_current(c);
         Outcome o = nofork ? h.run(c) : h.persistent_child ? fr.run_server(h.run, c) : fr.run(h.run, c);
         if (failing) st.shrink_evals++;
@@ -471,6 +476,7 @@ inline int pbt_main(int argc, char** argv, Harness h) {
             }
         }
         if (o.status == Outcome::VIOLATION) {
+            if (!failing) t_fail = elapsed();
             failing = true;
             last_fail_text = to_text(h.prop, c, (h.desc ? h.desc(c) + "\n" : std::string()) + "violation: " + o.msg.substr(0, 1500));
             last_fail_msg = o.msg;
